@@ -16,6 +16,9 @@ pub struct Case {
     pub lines: Vec<GLine>,
     /// sampled delivery schedule (cyclic chunk sizes; 0 = Interrupted)
     pub rschedule: Vec<usize>,
+    /// simulated producer pauses in ms before each delivery (cyclic); delta's clocks advance by them
+    #[serde(default)]
+    pub rdelays_ms: Vec<u64>,
     /// sampled consumer plan (cyclic; -1 all, 0 Interrupted, n short write)
     pub wplan: Vec<i64>,
     /// indexes (into the sampled run's quiescence points) at which oracle P is evaluated
@@ -30,6 +33,7 @@ pub struct CaseStats {
     pub eintr_reads: u64,
     pub eintr_writes: u64,
     pub short_writes: u64,
+    pub clock_advances: u64,
     pub chunk_inside_utf8: u64,
     pub chunk_inside_line: u64,
     pub p_checks: u64,
@@ -69,8 +73,10 @@ pub fn gen_case(seed: u64, idx: usize) -> Case {
     if wplan.iter().all(|c| *c == 0) {
         wplan.push(-1);
     }
+    let nd = rng.range(1, 6);
+    let rdelays_ms: Vec<u64> = (0..nd).map(|_| *rng.pick(&[0u64, 0, 1, 30, 450, 2_000, 60_000, 3_600_000])).collect();
     let p_points = vec![rng.below(1_000_000) as usize, rng.below(1_000_000) as usize, rng.below(1_000_000) as usize];
-    Case { opts, lines, rschedule, wplan, p_points, gen: Some(gp) }
+    Case { opts, lines, rschedule, rdelays_ms, wplan, p_points, gen: Some(gp) }
 }
 
 pub fn check_case(case: &Case) -> (Vec<Violation>, CaseStats) {
@@ -87,7 +93,7 @@ pub fn check_case(case: &Case) -> (Vec<Violation>, CaseStats) {
     };
     let data = Rc::new(gen::to_bytes(&case.lines));
     // reference: one chunk, no faults
-    let base = run_delta(RunParams { config: &config, data: data.clone(), rschedule: vec![], wplan: vec![], fail_at: None, fail_kind: std::io::ErrorKind::BrokenPipe, keep_output: true, record_quiescence: false });
+    let base = run_delta(RunParams { config: &config, data: data.clone(), rschedule: vec![], rdelays_ms: vec![], wplan: vec![], fail_at: None, fail_kind: std::io::ErrorKind::BrokenPipe, keep_output: true, record_quiescence: false });
     stats.delta_runs += 1;
     match &base.result {
         Ok(Ok(())) => {}
@@ -107,7 +113,7 @@ pub fn check_case(case: &Case) -> (Vec<Violation>, CaseStats) {
 
     // schedule A: one line per chunk — every line boundary is a pause point
     let line_chunks: Vec<usize> = case.lines.iter().map(|l| l.text.len() + 1).collect();
-    let a = run_delta(RunParams { config: &config, data: data.clone(), rschedule: line_chunks, wplan: vec![], fail_at: None, fail_kind: std::io::ErrorKind::BrokenPipe, keep_output: true, record_quiescence: true });
+    let a = run_delta(RunParams { config: &config, data: data.clone(), rschedule: line_chunks, rdelays_ms: vec![], wplan: vec![], fail_at: None, fail_kind: std::io::ErrorKind::BrokenPipe, keep_output: true, record_quiescence: true });
     stats.delta_runs += 1;
     if !matches!(a.result, Ok(Ok(()))) {
         out.push(Violation::new("D-delivery-independence", "D:result-differs", format!("line-by-line delivery ends differently from one-chunk delivery: {:?}", a.result.as_ref().map(|r| r.as_ref().map_err(|e| e.to_string())))));
@@ -124,17 +130,18 @@ pub fn check_case(case: &Case) -> (Vec<Violation>, CaseStats) {
     }
 
     // schedule B: the sampled schedule with non-fatal faults on both sides
-    let b = run_delta(RunParams { config: &config, data: data.clone(), rschedule: case.rschedule.clone(), wplan: case.wplan.clone(), fail_at: None, fail_kind: std::io::ErrorKind::BrokenPipe, keep_output: true, record_quiescence: true });
+    let b = run_delta(RunParams { config: &config, data: data.clone(), rschedule: case.rschedule.clone(), rdelays_ms: case.rdelays_ms.clone(), wplan: case.wplan.clone(), fail_at: None, fail_kind: std::io::ErrorKind::BrokenPipe, keep_output: true, record_quiescence: true });
     stats.delta_runs += 1;
     stats.eintr_reads += b.shared.eintr_reads as u64;
     stats.eintr_writes += b.shared.eintr_writes as u64;
     stats.short_writes += b.shared.short_writes as u64;
+    stats.clock_advances += b.shared.clock_advances as u64;
     if !matches!(b.result, Ok(Ok(()))) {
-        out.push(Violation::new("D-delivery-independence", "D:result-differs", format!("delivery schedule {:?} / consumer plan {:?} ends differently: {:?}", case.rschedule, case.wplan, b.result.as_ref().map(|r| r.as_ref().map_err(|e| e.to_string())))));
+        out.push(Violation::new("D-delivery-independence", "D:result-differs", format!("delivery schedule {:?} (pauses {:?} ms) / consumer plan {:?} ends differently: {:?}", case.rschedule, case.rdelays_ms, case.wplan, b.result.as_ref().map(|r| r.as_ref().map_err(|e| e.to_string())))));
         return (out, stats);
     }
     if b.shared.out != ref_out {
-        out.push(Violation::new("D-delivery-independence", "D:output-differs", format!("output under delivery schedule {:?} / consumer plan {:?} ({} bytes) differs from one-chunk delivery ({} bytes)", case.rschedule, case.wplan, b.shared.out.len(), ref_out.len())));
+        out.push(Violation::new("D-delivery-independence", "D:output-differs", format!("output under delivery schedule {:?} with producer pauses {:?} ms / consumer plan {:?} ({} bytes) differs from one-chunk delivery without pauses ({} bytes)", case.rschedule, case.rdelays_ms, case.wplan, b.shared.out.len(), ref_out.len())));
         return (out, stats);
     }
     // where did chunk boundaries fall?
@@ -161,7 +168,7 @@ pub fn check_case(case: &Case) -> (Vec<Violation>, CaseStats) {
         for pp in &case.p_points {
             let q = &qs[pp % qs.len()];
             let prefix = Rc::new(data[..q.delivered].to_vec());
-            let f = run_delta(RunParams { config: &config, data: prefix, rschedule: vec![], wplan: vec![], fail_at: None, fail_kind: std::io::ErrorKind::BrokenPipe, keep_output: true, record_quiescence: false });
+            let f = run_delta(RunParams { config: &config, data: prefix, rschedule: vec![], rdelays_ms: vec![], wplan: vec![], fail_at: None, fail_kind: std::io::ErrorKind::BrokenPipe, keep_output: true, record_quiescence: false });
             stats.delta_runs += 1;
             stats.p_checks += 1;
             if !matches!(f.result, Ok(Ok(()))) {
@@ -219,7 +226,7 @@ pub fn memory_check(args: &[String], n: usize, seed: u64) -> (Option<Violation>,
         let chunks: Vec<usize> = lines.iter().map(|l| l.text.len() + 1).collect();
         // quiescence i (i >= 1) follows line i-1
         let start = live_heap();
-        let r = run_delta(RunParams { config: &config, data: Rc::new(data), rschedule: chunks, wplan: vec![], fail_at: None, fail_kind: std::io::ErrorKind::BrokenPipe, keep_output: false, record_quiescence: true });
+        let r = run_delta(RunParams { config: &config, data: Rc::new(data), rschedule: chunks, rdelays_ms: vec![], wplan: vec![], fail_at: None, fail_kind: std::io::ErrorKind::BrokenPipe, keep_output: false, record_quiescence: true });
         let qs = r.shared.quiescence;
         // the last quiescence point that follows a context line
         let mut best: Option<isize> = None;
@@ -232,8 +239,9 @@ pub fn memory_check(args: &[String], n: usize, seed: u64) -> (Option<Violation>,
         let log_bytes = (qs.capacity() * std::mem::size_of::<Quiescence>()) as isize;
         (best.unwrap_or(0) - log_bytes, len, qs.len())
     };
-    // warm up caches (regexes, syntax sets) so they are not counted as growth
-    let _ = measure(20);
+    // warm up caches (lazily compiled regexes, one set per language met) with the large input
+    // itself, so that what a cache retains is not counted as growth with input size
+    let _ = measure(4 * n);
     let (h1, l1, _) = measure(n);
     let (h4, l4, q4) = measure(4 * n);
     let growth = h4 - h1;
@@ -262,6 +270,7 @@ pub fn merge_stats(into: &mut BTreeMap<String, u64>, s: &CaseStats) {
     add("fault_fired.read_eintr", s.eintr_reads);
     add("fault_fired.write_eintr", s.eintr_writes);
     add("fault_fired.short_write", s.short_writes);
+    add("fault_fired.producer_pause_clock_advance", s.clock_advances);
     add("chunk_boundary_inside_utf8_sequence", s.chunk_inside_utf8);
     add("chunk_boundary_inside_line", s.chunk_inside_line);
     add("prefix_oracle_checks", s.p_checks);
